@@ -1054,7 +1054,10 @@ class IRGenerator:
         """
         arg_dt = self._resolve_type(env, route._ast_node.arg_type_ref)
         result_dt = self._resolve_type(env, route._ast_node.result_type_ref)
-        error_dt = self._resolve_type(env, route._ast_node.error_type_ref)
+        # The parser also accepts a signature of two types (no error type).
+        error_type_ref = route._ast_node.error_type_ref
+        error_dt = (self._resolve_type(env, error_type_ref)
+                    if error_type_ref is not None else Void())
 
         ast_deprecated = route._ast_node.deprecated
         if ast_deprecated:
